@@ -161,6 +161,32 @@ UNITS += [
 """),
 ]
 
+UNITS += [
+    Unit(name="packer_filter_open_pack", file=PKR, kind="block", within="impl<BE: DecryptWriteBackend> Packer<BE> {",
+         anchor="@closure:#2:.filter(|(_, id)|",
+         block_sig="fn packer_filter_open_pack(raw_packer: &VRawPackerLockF, id: &BlobId) -> (r: bool)",
+         block_tail="",
+         functions=["blob::packer::Packer::new (second filter of the packer thread: blob already in the pack being filled?)"],
+         rewrites=[Rw("raw_packer.read().unwrap()", "raw_packer.vread()", why="RwLock read guard -> shared reference")],
+         contract="""
+    ensures /*@filter_drops_exactly_the_blobs_of_the_open_pack*/ r == !raw_packer.inner.open@.contains(*id),
+"""),
+    Unit(name="packer_filter_late", file=PKR, kind="block", within="impl<BE: DecryptWriteBackend> Packer<BE> {",
+         anchor="@closure:.filter(|res|",
+         block_sig="fn packer_filter_late<BE: DecryptWriteBackend>(indexer: &SharedIndexer<BE>, blob_type: BlobType, res: &RusticResult<(VProcessedF, BlobId, u64, Option<u32>)>) -> (r: bool)",
+         block_tail="",
+         functions=["blob::packer::Packer::new (third filter of the packer thread, after processing: indexed meanwhile? errors pass)"],
+         rewrites=[Rw("indexer.read().unwrap()", "indexer.vread()", why="RwLock read guard -> shared reference"),
+                   Rw(r"res\.as_ref\(\)\s*\.map_or_else\(\|_\| (?P<e>\w+), \|\(_, id, _, _\)\| (?P<b>[^;{}]*)\)(?=\s*\}?\s*\Z)", r"(match res { Err(_) => \g<e>, Ok(vt) => { let id = &vt.1; \g<b> } })", regex=True,
+                      why="Result::as_ref().map_or_else(|_| e, |(_, id, _, _)| body) -> match (definition; both bodies verbatim)")],
+         contract="""
+    ensures
+        // a processing error is never filtered away (it must reach try_for_each and fail the packer: C03)
+        /*@errors_pass_the_late_filter*/ *res is Err ==> r,
+        /*@late_filter_drops_exactly_the_blobs_indexed_under_this_type*/ *res matches Ok(t) ==> r == !(known_set(indexer.inner) matches Some(s) && s.contains((blob_type, t.1))),
+"""),
+]
+
 FA = "crates/core/src/archiver/file_archiver.rs"
 UNITS += [
     Unit(name="backup_chunk", file=FA, kind="block", within="fn backup_reader(",
@@ -205,6 +231,6 @@ UNITS += [
 KANI = []
 META = {"not_covered": [
     "the iterator chain around the per-chunk closure of backup_reader (ChunkIter -> map -> collect, the sum of the sizes); the closure itself is the unit backup_chunk, the skip-upload decision of tree_archiver.rs backup_tree is a unit of C01 (ta_backup_tree)",
-    "the second and third 'already indexed' filters inside the Packer::new thread pipeline (RawPacker::has is a unit of C08; the third filter sits inside a map_or_else closure pair) and the pipeline itself (threads, channels); the first filter is the unit packer_filter_early",
+    "the thread pipeline of Packer::new itself (threads, channels; ABSTRACTED in C03's unit packer_writer_status); its three 'already there' filters ARE units (packer_filter_early / _open_pack / _late; RawPacker::has is a unit of C08)",
     "shift-resilience of chunk boundaries (follows from C06 at the chunk level only)",
 ]}
